@@ -16,14 +16,19 @@
      env_ok num rho G V    every name bound in G has a value in V, and its bit symbols evaluate
                            under rho to the bits of that value
      env_canon G           every binding carries the bit names its type gives (translate_argument)
-     env_tyok G            no bound type has a one-bit sized / tuple component or an empty tuple
-                           (ty_ok; every shipped sized type has at least 2 bits)
+     env_ne G              no bound type has an EMPTY tuple inside (ty_ne).  The code counts
+                           `Tuple[()]` as one bit in _type_size although it has no bit name: with
+                           u = ((), a) the statement `return u[1]` reads the free symbol u.1
+     env_good G            ... and no sized component of fewer than 2 bits (ty_good; every shipped
+                           sized type has at least 2 bits; a one-bit sized NAME would evaluate to a
+                           bare Symbol).  One-element tuples are fine since 861badb
      wf_res r              the translated value is shaped as its type: a bool is a bare expression, a
                            sized value a flat list
-     stmt_guard, body_guard   decidable side conditions of the statement theorems (evaluated on
-                           every program of the correspondence run): the bound type is ty_ok, the
-                           definitions can be read simultaneously (seq_ok), assign distinct symbols
-                           (nodupb) and clobber no other name (fresh_for)
+     pexp_ne e / stmt_ne s no empty tuple expression `()`
+     stmt_guard, body_guard   the ONE decidable side condition left on statements (evaluated on every
+                           program of the correspondence run): no definition of a statement reads a
+                           symbol an earlier definition of the SAME statement assigns (seq_ok)
+     forall a b, num a = num b -> a = b     the numbering of bit names is injective (enc is)
    A result None of the model is "the Python code raises". *)
 From Coq Require Import List Bool NArith ZArith Arith.
 From QV Require Import Bits Bexp BexpTT M_Codec Generated M_Types P_Types M_Texp P_Texp.
@@ -32,16 +37,18 @@ Local Open Scope N_scope.
 
 (* ---------------- expressions: ALL constructors ---------------- *)
 Theorem C01x_trans_exp_sound : forall num rho G V e r v,
-  env_ok num rho G V -> env_canon G -> env_tyok G ->
+  env_ok num rho G V -> env_canon G -> env_ne G ->
   trans_exp num G e = Some r -> eval_exp V e = Some v -> den rho r = Some v.
 Proof. exact trans_exp_sound. Qed.
 Print Assumptions C01x_trans_exp_sound.
 
-(* the translated type is the type of the value, and the value is shaped as its type *)
+(* the translated type is the type of the value, the value is shaped as its type, and its type
+   has no one-bit sized component *)
 Theorem C01x_trans_exp_type : forall num rho G V e r v,
-  env_ok num rho G V -> env_canon G -> env_tyok G ->
+  env_ok num rho G V -> env_canon G -> env_good G ->
   trans_exp num G e = Some r -> eval_exp V e = Some v ->
-  type_of v = fst r /\ length (flat (snd r)) = ty_size (fst r) /\ wf_res r.
+  type_of v = fst r /\ length (flat (snd r)) = ty_size (fst r) /\ wf_res r
+  /\ (pexp_ne e = true -> ty_good (fst r) = true).
 Proof. exact trans_exp_type. Qed.
 Print Assumptions C01x_trans_exp_type.
 
@@ -56,12 +63,12 @@ Definition exe : pexp :=
             (EName 2%nat).
 
 Example C01x_trans_exp_ex :
-  env_ok exnum exrho exG exV /\ env_canon exG /\ env_tyok exG
+  env_ok exnum exrho exG exV /\ env_canon exG /\ env_ne exG
   /\ (exists r, trans_exp exnum exG exe = Some r /\ fst r = TBool)
   /\ eval_exp exV exe = Some (VB false)          (* ((3 widened to 4 bits) + 1) * 2 = 8 at 8 bits; 8 > 9 is false *)
   /\ option_map (den exrho) (trans_exp exnum exG exe) = Some (Some (VB false)).
 Proof.
-  split; [|split; [apply arg_env_canon|split; [apply arg_env_tyok; reflexivity|]]].
+  split; [|split; [apply arg_env_canon|split; [apply arg_env_ne; reflexivity|]]].
   - apply (arg_env_ok exnum exrho [(1%nat, TQint 2); (2%nat, TQint 4); (3%nat, TBool)] [VI 2 3; VI 4 9; VB true]).
     repeat constructor.
   - repeat split; try (vm_compute; reflexivity). eexists. split; vm_compute; reflexivity.
@@ -71,7 +78,7 @@ Qed.
    constants, comparisons, + - * & | ^, shifts by an integer constant; every bound name a bool or a
    Qint) HAVE a value, and denote it: soundness without the hypothesis on the evaluator *)
 Theorem C01x_trans_exp_total : forall num rho G V e r,
-  env_ok num rho G V -> env_canon G -> env_tyok G -> ib_env G -> frag e = true -> trans_exp num G e = Some r ->
+  env_ok num rho G V -> env_canon G -> env_ne G -> ib_env G -> frag e = true -> trans_exp num G e = Some r ->
   exists v, eval_exp V e = Some v /\ den rho r = Some v.
 Proof. exact trans_exp_total. Qed.
 Print Assumptions C01x_trans_exp_total.
@@ -80,19 +87,30 @@ Example C01x_trans_exp_total_ex : ib_env exG /\ frag exe = true.
 Proof. split; [apply arg_env_ib|]; reflexivity. Qed.
 
 (* ---------------- statements ---------------- *)
-Theorem C01x_trans_stmt_sound : forall num rho G V rt s ds G' V',
-  env_ok num rho G V -> env_canon G -> env_tyok G -> stmt_guard num G rt s = true ->
+(* ONE statement.  Hypotheses: an injective numbering; the environment invariants; the declared
+   return type and the statement without empty tuples / one-bit sized types; seq_ok (stmt_guard) *)
+Theorem C01x_trans_stmt_sound : forall num, (forall a b, num a = num b -> a = b) ->
+  forall rho G V rt s ds G' V',
+  env_ok num rho G V -> env_canon G -> env_good G -> ty_good rt = true ->
+  stmt_ne s = true -> stmt_guard num G rt s = true ->
   trans_stmt num G rt s = Some (ds, G') -> eval_stmt V rt s = Some V' ->
-  env_ok num (run_defs rho (numbered num ds)) G' V' /\ env_canon G' /\ env_tyok G'.
+  env_ok num (run_defs rho (numbered num ds)) G' V' /\ env_canon G' /\ env_good G'.
 Proof. exact trans_stmt_sound. Qed.
 Print Assumptions C01x_trans_stmt_sound.
 
-(* the names an Assign / Return binds are the names translate_argument gives to the type: PROVED
-   for every value with a meaning (was a guard before the fixes 87c4060 / fa1d0be) *)
-Theorem C01x_binding_names : forall rho x r v, den rho r = Some v -> wf_res r -> ty_ok (fst r) = true ->
+(* the names an Assign / Return binds are the names translate_argument gives to the type, for EVERY
+   value with a meaning: no side condition (one-element tuples included since 861badb) *)
+Theorem C01x_binding_names : forall rho x r v, den rho r = Some v -> wf_res r ->
   map fst (decompose [x] (snd (regroup_value r))) = arg_names [x] (fst r).
 Proof. exact regroup_canon. Qed.
 Print Assumptions C01x_binding_names.
+
+(* bit names are distinct and carry their base name: with an injective numbering the definitions of
+   a statement assign distinct symbols and clobber no other binding (were per-program guards) *)
+Theorem C01x_names_distinct : forall t base,
+  NoDup (arg_names base t) /\ forall n, In n (arg_names base t) -> exists suf, n = base ++ suf.
+Proof. exact (fun t base => conj (arg_names_nodup t base) (arg_names_prefix t base)). Qed.
+Print Assumptions C01x_names_distinct.
 
 (* the Return coercion to the declared type: zero-extension / low bits for integers *)
 Theorem C01x_ret_coerce_sound : forall rho rt r v r' v',
@@ -101,10 +119,12 @@ Theorem C01x_ret_coerce_sound : forall rho rt r v r' v',
 Proof. exact ret_coerce_sound. Qed.
 Print Assumptions C01x_ret_coerce_sound.
 
-Theorem C01x_trans_body_sound : forall num body rho G V rt ds G' V',
-  env_ok num rho G V -> env_canon G -> env_tyok G -> body_guard num G rt body = true ->
+Theorem C01x_trans_body_sound : forall num, (forall a b, num a = num b -> a = b) ->
+  forall body rho G V rt ds G' V',
+  env_ok num rho G V -> env_canon G -> env_good G -> ty_good rt = true ->
+  forallb stmt_ne body = true -> body_guard num G rt body = true ->
   trans_body num G rt body = Some (ds, G') -> eval_body V rt body = Some V' ->
-  env_ok num (run_defs rho (numbered num ds)) G' V' /\ env_canon G' /\ env_tyok G'.
+  env_ok num (run_defs rho (numbered num ds)) G' V' /\ env_canon G' /\ env_good G'.
 Proof. exact trans_body_sound. Qed.
 Print Assumptions C01x_trans_body_sound.
 
@@ -117,13 +137,20 @@ Print Assumptions C01x_run_defs_seq.
 
 (* ---------------- a whole function: the list translate_ast returns ---------------- *)
 Theorem C01x_trans_fun_sound : forall num rho args rt body vs lf v,
+  (forall a b, num a = num b -> a = b) ->
   trans_fun num args rt body = Some lf -> eval_fun args rt body vs = Some v ->
-  wf_args args = true -> wf_body body = true -> body_guard num (arg_env args) rt body = true ->
+  wf_args args = true -> ty_good rt = true -> wf_body body = true -> forallb stmt_ne body = true ->
+  body_guard num (arg_env args) rt body = true ->
   args_encoded num rho args vs ->
   lf_ret lf = (rt, arg_names [ret_id] rt) /\
   decode rt (map (fun s => run_defs rho (numbered num (lf_defs lf)) (num s)) (arg_names [ret_id] rt)) = Some v.
 Proof. exact trans_fun_sound. Qed.
 Print Assumptions C01x_trans_fun_sound.
+
+(* an injective numbering exists *)
+Theorem C01x_enc_injective : forall a b, enc a = enc b -> a = b.
+Proof. exact enc_inj. Qed.
+Print Assumptions C01x_enc_injective.
 
 (* def f(a: Qint[2], b: Qint[4], c: bool) -> Qint[4]:
        d = a                      ( 1 )
@@ -137,17 +164,14 @@ Definition exbody : list pstmt :=
    SAssign 4%nat (EIf (EName 3%nat) (EName 5%nat) (EName 4%nat));
    SAssign 6%nat (ETuple [EName 4%nat; EName 3%nat]);
    SReturn (EBin AoAdd (EBin AoMul (ESub 6%nat [0%nat]) (EConst (CInt 3))) (EName 2%nat))].
-Definition exnum2 : sname -> nat :=
-  fun s => match s with
-           | [1; i] => i | [2; i] => 2 + i | [3] => 6 | [4; i] => 10 + i | [5; i] => 20 + i
-           | [6; 0; i] => 30 + i | [6; 1] => 35 | [0; i] => 40 + i | _ => 99
-           end%nat.
+(* a = 3, b = 9, c = True under the injective numbering enc *)
+Definition exrho2 : nat -> bool := rho_of [[1; 0]; [1; 1]; [2; 0]; [2; 3]; [3]]%nat.
 
 Example C01x_trans_fun_ex :
-  wf_args exargs = true /\ wf_body exbody = true
-  /\ body_guard exnum2 (arg_env exargs) (TQint 4) exbody = true
-  /\ args_encoded exnum2 exrho exargs [VI 2 3; VI 4 9; VB true]
-  /\ (exists lf, trans_fun exnum2 exargs (TQint 4) exbody = Some lf /\ length (lf_defs lf) = 13%nat)
+  wf_args exargs = true /\ ty_good (TQint 4) = true /\ wf_body exbody = true /\ forallb stmt_ne exbody = true
+  /\ body_guard enc (arg_env exargs) (TQint 4) exbody = true
+  /\ args_encoded enc exrho2 exargs [VI 2 3; VI 4 9; VB true]
+  /\ (exists lf, trans_fun enc exargs (TQint 4) exbody = Some lf /\ length (lf_defs lf) = 13%nat)
   /\ eval_fun exargs (TQint 4) exbody [VI 2 3; VI 4 9; VB true] = Some (VI 4 9).   (* (3+1 mod 4) * 3 + 9 *)
 Proof.
   repeat split; try (vm_compute; reflexivity).
@@ -186,14 +210,14 @@ Print Assumptions C01x_rejects_operators.
 (* a subscript may select ANY element, a whole tuple-typed one included (`a[0]` of
    a: Tuple[Tuple[bool, Qint[2]], bool]): no side condition on subscripts is left *)
 Theorem C01x_subscript_of_tuple_sound : forall num rho G V x p r v,
-  env_ok num rho G V -> env_canon G -> env_tyok G ->
+  env_ok num rho G V -> env_canon G -> env_ne G ->
   trans_exp num G (ESub x p) = Some r -> eval_exp V (ESub x p) = Some v ->
   den rho r = Some v /\ type_of v = fst r.
 Proof. exact subscript_of_tuple_sound. Qed.
 Print Assumptions C01x_subscript_of_tuple_sound.
 
 Example C01x_subscript_of_tuple_ex :
-  env_ok ex_sub_num ex_sub_rho ex_sub_G ex_sub_V /\ env_canon ex_sub_G /\ env_tyok ex_sub_G
+  env_ok ex_sub_num ex_sub_rho ex_sub_G ex_sub_V /\ env_canon ex_sub_G /\ env_ne ex_sub_G
   /\ eval_exp ex_sub_V (ESub 1%nat [0%nat]) = Some (VT [VB true; VI 2 1])
   /\ option_map (den ex_sub_rho) (trans_exp ex_sub_num ex_sub_G (ESub 1%nat [0%nat])) = Some (Some (VT [VB true; VI 2 1])).
 Proof.
@@ -203,22 +227,37 @@ Qed.
 (* `d = a; return d[1]` with a: Tuple[Qint[2], bool] (returned bit 1 of a[0] before the fix): the
    copy is named d.0.0, d.0.1, d.1 and the function returns a[1] for EVERY argument value *)
 Theorem C01x_tuple_copy_sound : forall rho vs v,
-  args_encoded ex_copy_num rho ex_copy_args vs -> eval_fun ex_copy_args TBool ex_copy_body vs = Some v ->
-  exists lf, trans_fun ex_copy_num ex_copy_args TBool ex_copy_body = Some lf /\
+  args_encoded enc rho ex_copy_args vs -> eval_fun ex_copy_args TBool ex_copy_body vs = Some v ->
+  exists lf, trans_fun enc ex_copy_args TBool ex_copy_body = Some lf /\
     map fst (lf_defs lf) = [[2; 0; 0]; [2; 0; 1]; [2; 1]; [0]]%nat /\
-    decode TBool (map (fun s => run_defs rho (numbered ex_copy_num (lf_defs lf)) (ex_copy_num s))
+    decode TBool (map (fun s => run_defs rho (numbered enc (lf_defs lf)) (enc s))
                       (arg_names [ret_id] TBool)) = Some v.
 Proof. exact tuple_copy_sound. Qed.
 Print Assumptions C01x_tuple_copy_sound.
 
 Example C01x_tuple_copy_ex :
-  args_encoded ex_copy_num (fun k => Nat.eqb k 1) ex_copy_args [VT [VI 2 2; VB false]]
+  args_encoded enc (rho_of [[1; 0; 1]]%nat) ex_copy_args [VT [VI 2 2; VB false]]
   /\ eval_fun ex_copy_args TBool ex_copy_body [VT [VI 2 2; VB false]] = Some (VB false).
 Proof. split; [constructor; [vm_compute; reflexivity|constructor]|vm_compute; reflexivity]. Qed.
 
+(* the side condition that is left, seq_ok, does NOT follow from translate_statement: on the
+   UN-normalised `a = a + 1; return a` (a: Qint[2]) it emits a.0 := ~a.0; a.1 := a.0 ^ a.1 and the
+   list run in order gives 0 for a = 1.  (ast2ast never hands this over: it goes through `__a`.) *)
+Theorem C01x_seq_ok_needed_refuted :
+  exists rho vs lf v,
+    trans_fun enc ex_self_args (TQint 2) ex_self_body = Some lf /\
+    eval_fun ex_self_args (TQint 2) ex_self_body vs = Some v /\
+    wf_args ex_self_args = true /\ ty_good (TQint 2) = true /\ wf_body ex_self_body = true /\
+    forallb stmt_ne ex_self_body = true /\ args_encoded enc rho ex_self_args vs /\
+    body_guard enc (arg_env ex_self_args) (TQint 2) ex_self_body = false /\
+    decode (TQint 2) (map (fun s => run_defs rho (numbered enc (lf_defs lf)) (enc s)) (arg_names [ret_id] (TQint 2)))
+      <> Some v.
+Proof. exact seq_ok_needed. Qed.
+Print Assumptions C01x_seq_ok_needed_refuted.
+
 (* "every accepted program has a meaning" is false: Qint ^ Qchar; `return 'a'` declared Qint[2] *)
 Theorem C01x_accepted_without_meaning_refuted :
-  (exists num rho G V e r, env_ok num rho G V /\ env_canon G /\ env_tyok G /\
+  (exists num rho G V e r, env_ok num rho G V /\ env_canon G /\ env_ne G /\
      trans_exp num G e = Some r /\ eval_exp V e = None)
   /\ (exists num args rt body lf, trans_fun num args rt body = Some lf /\
         forall vs, eval_fun args rt body vs = None).
